@@ -143,6 +143,45 @@ def main(pid):
                                   "observed": obs[tid - 1]}, signature(alpha, p, cl))
         for tid, step, what in drifts:
             vd.spec_drift("Resolve", f"cfg=Full-sim path={paths[tid-1][0]} step={step} {what}")
+    # lists produced by extraction from generated documents (second half of the quantifier of C06-C08)
+    import gendocs
+    docs = list(gendocs.pairs())
+    rnd.shuffle(docs)
+    docs = docs[: (6000 if thorough else 1500)] + list(gendocs.random_docs(vlib.seed(), 6000 if thorough else 1500, kmin=3, kmax=9))
+    docs = [d for d in dict.fromkeys(docs) if d.strip()]
+    dobs = vlib.impl_map("drv_resolve", "run_docs", docs)
+    dtr = [{"p": [0] * len(o["cites"]), "cs": o["cites"], "g": o["groups"] or [], "r": o["raised"] or "",
+            "pre": o["prefix"] if not o["raised"] else []} for o in dobs]
+    tf_alpha = [{"k": "un", "rv": "", "pg": -2, "pl": [], "df": [], "ag": "-", "nm": [], "pin": -1, "id": ""}]
+    import os, time
+    vlib.WORK.mkdir(exist_ok=True)
+    for b in range(0, len(dtr), 2000):
+        part = dtr[b:b + 2000]
+        tf = vlib.WORK / f"trace-{os.getpid()}-{time.time_ns()}.json"
+        tf.write_text(json.dumps({"alpha": tf_alpha, "traces": part}))
+        try:
+            r = run_tlc("Trace_Resolve", "Trace_Resolve.cfg", env={"TRACE_FILE": str(tf)}, timeout=1500)
+        finally:
+            tf.unlink(missing_ok=True)
+        tlc_must_pass(r, "Trace_Resolve docs")
+        ev.add_tlc(f"Trace_Resolve[docs#{b // 2000}]", r, f"{len(part)} extracted lists")
+        ndone = 0
+        for line in r.out.splitlines():
+            if line.startswith('<<"FAIL"'):
+                m = re.match(r'^<<"FAIL", (\d+), "([\w.]+)">>$', line)
+                ix, cl = b + int(m.group(1)) - 1, m.group(2)
+                if cl in mine:
+                    vd.violation(cl, {"kind": "extracted list", "text": docs[ix], "citations": dobs[ix]["cites"], "observed": dobs[ix]["groups"]},
+                                 {"clause": cl, "kinds": "-".join(c["k"] for c in dobs[ix]["cites"])[:60]})
+            elif line.startswith('<<"DRIFT"'):
+                m = re.match(r'^<<"DRIFT", (\d+), (.*)>>$', line)
+                vd.spec_drift("Resolve", f"extracted list of {docs[b + int(m.group(1)) - 1][:80]!r}: {m.group(2)}")
+            elif line.startswith('<<"DONE"'):
+                ndone += 1
+        if ndone != len(part):
+            raise MachineryError(f"Trace_Resolve docs: {ndone} of {len(part)} judged")
+    total_paths += len(dtr)
+    ev.cov["extracted_lists"] = len(dtr)
     ev.cov["traces_validated_against_impl"] = total_paths
     ev.cov["evaluations"] = total_paths
     ev.cov["distinct_nontrivial"] = total_paths
